@@ -92,6 +92,9 @@ type ChanV struct {
 
 type Poison struct{ Why string }
 
+// PtrInt is a pointer that was converted to uintptr (only the noescape idiom is supported).
+type PtrInt struct{ P *Pointer }
+
 // mapIter is the state of a range-over-map or range-over-string.
 type mapIter struct {
 	m   *MapV
